@@ -279,7 +279,7 @@ def workloads(tier, seed, prop):
     return out
 
 
-def run_disk(prop, tier, seed):
+def run_disk(prop, tier, seed, extra=None):
     t0 = time.time()
     out = Outcome(prop)
     lib = c.build_lib(); exe = c.build_driver('crash', lib)
@@ -326,8 +326,13 @@ def run_disk(prop, tier, seed):
         if not r['accepted']:
             _report(prop, out, r, lines, tp, j, wseed, bits, nb, endmode, exe, plan, cfg, renv)
         c.rmtree(d); c.rmtree(td)
+    extra_cov = {}
+    if extra is not None and not out.full():
+        extra_cov = extra(prop, tier, seed, out)
     rc = out.finish()
-    cov = dict(states=total['tv_states'], transitions=total['tv_transitions'], traces_validated_against_impl=total['workloads'],
+    cov = dict(states=total['tv_states'] + sum(v.get('states', 0) for v in extra_cov.values()),
+               transitions=total['tv_transitions'] + sum(v.get('transitions', 0) for v in extra_cov.values()),
+               traces_validated_against_impl=total['workloads'] + sum(v.get('executions', 0) for v in extra_cov.values()), layers=extra_cov,
                samples=samples or [{}], totals=total, image_classes=classes, invariants=CFG[prop], exhaustive=False,
                model_images='every model-allowed crash image at every system-call boundary (TLC, inside the invariant)' if plan.model_images else 'n/a')
     c.write_evidence(prop, tier, seed, 'model_checking', cov, time.time() - t0, violations=len(out.violations),
@@ -374,10 +379,20 @@ def _report(prop, out, r, lines, tp, journal, wseed, bits, nb, endmode, exe, pla
     out.violation(what, rd, shape)
 
 
+def _c04_visibility(prop, tier, seed, out):
+    """Visibility half of C04: snapshot / iterator reads concurrent with multi-key batches see all of a batch or none
+    (every read equals the value at ONE captured sequence; captures never fall inside a group)."""
+    from . import p_conc
+    st = {}
+    p_conc.conc_layer('C04', 'ConcTrace_C08.cfg', tier, seed, out, st)
+    st.pop('sample', None)
+    return {'ConcTrace': st}
+
+
 CHECKS = {
     'C02': lambda tier, seed: run_disk('C02', tier, seed),
     'C03': lambda tier, seed: run_disk('C03', tier, seed),
-    'C04': lambda tier, seed: run_disk('C04', tier, seed),
+    'C04': lambda tier, seed: run_disk('C04', tier, seed, extra=_c04_visibility),
     'C05': lambda tier, seed: run_disk('C05', tier, seed),
 }
 
